@@ -117,8 +117,10 @@ Operands(x) ==
     ELSE LET s == DimsR(x.rank, x.data) IN
          \* the matching shape (two seeds), and shapes that differ in the FIRST or only in the LAST dimension
          {Mk(s, 4), Mk(s, 9), Mk([s EXCEPT ![1] = (s[1] % MaxDim) + 1], 4), Mk([s EXCEPT ![Len(s)] = (s[Len(s)] % MaxDim) + 1], 4)}
+         \* another RANK with the same element count (a vector against a matrix or a feature map and the reverse)
          \cup (IF x.rank = 2 THEN {Mk(<<s[1] * s[2]>>, 4)} ELSE {})
-         \cup (IF x.rank = 1 THEN {Mk(<<1, s[1]>>, 4)} ELSE {})
+         \cup (IF x.rank = 1 THEN {Mk(<<1, s[1]>>, 4), Mk(<<1, 1, s[1]>>, 4)} ELSE {})
+         \cup (IF x.rank = 3 THEN {Mk(<<s[1] * s[2] * s[3]>>, 4)} ELSE {})
 
 Init == /\ \E t \in StartTensors : acc = t /\ start = t
         /\ hist = <<>>
